@@ -216,13 +216,15 @@ def skolemize_goal(goal, pc, max_inst=120, extra_terms=()):
                     insts.append(z3.substitute_vars(c.body(), sk))
                     if len(insts) >= max_inst:
                         break
-    # small literal indexes: facts about short literal sequences ([a, b, c] built by the code) are needed at 0, 1, 2
-    if not os.environ.get("VERIF_NO_LITIDX"):
-        for h in pc[-40:]:
-            for c in _conjuncts(h):
-                if z3.is_quantifier(c) and c.is_forall() and c.num_vars() == 1 and c.var_sort(0) == z3.IntSort() and len(insts) < max_inst:
-                    for k in (0, 1, 2):
-                        insts.append(z3.substitute_vars(c.body(), z3.IntVal(k)))
+    # small literal indexes: facts about short literal sequences ([a, b, c] built by the code) are needed at 0, 1, 2.  They are
+    # kept apart (ALT): an alternative strengthening tried only when the obligation does not go through without them
+    alt = []
+    for h in pc[-40:]:
+        for c in _conjuncts(h):
+            if z3.is_quantifier(c) and c.is_forall() and c.num_vars() == 1 and c.var_sort(0) == z3.IntSort() and len(alt) < max_inst:
+                for k in (0, 1, 2):
+                    alt.append(z3.substitute_vars(c.body(), z3.IntVal(k)))
+    skolemize_goal.last_alt = alt
     # second round: positions of keys (dict_pos(m, k), ground) produced by the first round are indexes worth instantiating at
     pos_terms = {}
     for t in insts:
@@ -269,6 +271,7 @@ class Obligation:
         self.kind = kind
         self.line = line
         self.extra = extra or {}
+        self.alt = []          # further instances of assumptions (literal indexes), used as an alternative strengthening
 
 
 class Engine:
@@ -360,8 +363,11 @@ class Engine:
                 if nm.startswith("_i") and isinstance(lv, SV):
                     idx.append(z3.simplify(Val.i(lv.term)))
                     idx.append(z3.simplify(Val.i(lv.term) - 1))     # the index the just-finished iteration worked on
+        skolemize_goal.last_alt = []
         goal, insts = skolemize_goal(goal, self.st.pc, extra_terms=idx)
-        self.obligations.append(Obligation(name, list(self.st.pc) + insts, goal, kind, line, extra))
+        ob = Obligation(name, list(self.st.pc) + insts, goal, kind, line, extra)
+        ob.alt = list(skolemize_goal.last_alt)
+        self.obligations.append(ob)
 
     # ------------------------------------------------------------- branching
     def choose(self, n, label=""):
